@@ -2,7 +2,7 @@
 from terms import g_json, g_Z, g_nat, g_list, g_str, g_optZ, g_name, label_tree, g_pred
 from qcase import gen_doc, gen_user, KEYS
 
-RAW = ['a', 'b', 'k', 'x_y', 'a_b_c', 'zz', 'c', 'k_', 'class_', '_k', 'a__b']
+RAW = ['a', 'b', 'k', 'x_y', 'a_b_c', 'zz', 'c', 'k_', 'class_', '_k', 'a__b', '__dict__', '__copy__', '__wrapped__', '__name__']
 
 
 def g_bstep(s, table):
